@@ -237,6 +237,32 @@ func maxNum(m *descriptorpb.DescriptorProto) int32 {
 	return mx
 }
 
+// mapEntryInjector applies edit to one map-entry message of the file.
+func mapEntryInjector(name string, edit func(r *core.Rand, p *descriptorpb.FileDescriptorProto, e *descriptorpb.DescriptorProto) bool) injector {
+	return injector{name, false, func(r *core.Rand, p *descriptorpb.FileDescriptorProto) bool {
+		e := pickMsg(r, allMsgs(p), func(m *descriptorpb.DescriptorProto) bool { return m.GetOptions().GetMapEntry() && len(m.Field) == 2 })
+		if e == nil {
+			return false
+		}
+		return edit(r, p, e)
+	}}
+}
+
+// setScalarDefault gives a scalar field a default value of its own kind.
+func setScalarDefault(f *descriptorpb.FieldDescriptorProto) bool {
+	switch f.GetType() {
+	case descriptorpb.FieldDescriptorProto_TYPE_STRING:
+		f.DefaultValue = proto.String("dflt")
+	case descriptorpb.FieldDescriptorProto_TYPE_BOOL:
+		f.DefaultValue = proto.String("true")
+	case descriptorpb.FieldDescriptorProto_TYPE_MESSAGE, descriptorpb.FieldDescriptorProto_TYPE_GROUP, descriptorpb.FieldDescriptorProto_TYPE_ENUM, descriptorpb.FieldDescriptorProto_TYPE_BYTES:
+		return false
+	default:
+		f.DefaultValue = proto.String("7")
+	}
+	return true
+}
+
 func newField(name string, num int32, t descriptorpb.FieldDescriptorProto_Type) *descriptorpb.FieldDescriptorProto {
 	return &descriptorpb.FieldDescriptorProto{Name: proto.String(name), Number: proto.Int32(num), Label: descriptorpb.FieldDescriptorProto_LABEL_OPTIONAL.Enum(), Type: t.Enum(), JsonName: proto.String(gen.JSONCamel(name))}
 }
@@ -532,6 +558,60 @@ var c35Injectors = []injector{
 		}
 		return false
 	}},
+	// every clause of a well-formed map entry, for the key and for the value field
+	mapEntryInjector("map-entry-wrong-value-name", func(r *core.Rand, p *descriptorpb.FileDescriptorProto, e *descriptorpb.DescriptorProto) bool {
+		e.Field[1].Name = proto.String("val")
+		e.Field[1].JsonName = proto.String("val")
+		return true
+	}),
+	mapEntryInjector("map-entry-value-number", func(r *core.Rand, p *descriptorpb.FileDescriptorProto, e *descriptorpb.DescriptorProto) bool {
+		e.Field[1].Number = proto.Int32(3)
+		return true
+	}),
+	mapEntryInjector("map-entry-fields-swapped", func(r *core.Rand, p *descriptorpb.FileDescriptorProto, e *descriptorpb.DescriptorProto) bool {
+		if e.Field[0].GetType() == e.Field[1].GetType() && e.Field[0].GetTypeName() == e.Field[1].GetTypeName() {
+			return false
+		}
+		e.Field[0], e.Field[1] = e.Field[1], e.Field[0]
+		return true
+	}),
+	mapEntryInjector("map-entry-key-label", func(r *core.Rand, p *descriptorpb.FileDescriptorProto, e *descriptorpb.DescriptorProto) bool {
+		e.Field[0].Label = descriptorpb.FieldDescriptorProto_LABEL_REPEATED.Enum()
+		return true
+	}),
+	mapEntryInjector("map-entry-value-label", func(r *core.Rand, p *descriptorpb.FileDescriptorProto, e *descriptorpb.DescriptorProto) bool {
+		e.Field[1].Label = descriptorpb.FieldDescriptorProto_LABEL_REPEATED.Enum()
+		return true
+	}),
+	mapEntryInjector("map-entry-key-in-oneof", func(r *core.Rand, p *descriptorpb.FileDescriptorProto, e *descriptorpb.DescriptorProto) bool {
+		e.OneofDecl = append(e.OneofDecl, &descriptorpb.OneofDescriptorProto{Name: proto.String("oo_zz")})
+		e.Field[0].OneofIndex = proto.Int32(int32(len(e.OneofDecl) - 1))
+		return true
+	}),
+	mapEntryInjector("map-entry-value-in-oneof", func(r *core.Rand, p *descriptorpb.FileDescriptorProto, e *descriptorpb.DescriptorProto) bool {
+		e.OneofDecl = append(e.OneofDecl, &descriptorpb.OneofDescriptorProto{Name: proto.String("oo_zz")})
+		e.Field[1].OneofIndex = proto.Int32(int32(len(e.OneofDecl) - 1))
+		return true
+	}),
+	mapEntryInjector("map-entry-key-default", func(r *core.Rand, p *descriptorpb.FileDescriptorProto, e *descriptorpb.DescriptorProto) bool {
+		return setScalarDefault(e.Field[0])
+	}),
+	mapEntryInjector("map-entry-value-default", func(r *core.Rand, p *descriptorpb.FileDescriptorProto, e *descriptorpb.DescriptorProto) bool {
+		return setScalarDefault(e.Field[1])
+	}),
+	mapEntryInjector("map-entry-extension-range", func(r *core.Rand, p *descriptorpb.FileDescriptorProto, e *descriptorpb.DescriptorProto) bool {
+		e.ExtensionRange = append(e.ExtensionRange, &descriptorpb.DescriptorProto_ExtensionRange{Start: proto.Int32(100), End: proto.Int32(200)})
+		return true
+	}),
+	mapEntryInjector("map-entry-nested-declaration", func(r *core.Rand, p *descriptorpb.FileDescriptorProto, e *descriptorpb.DescriptorProto) bool {
+		switch r.Intn(2) {
+		case 0:
+			e.NestedType = append(e.NestedType, &descriptorpb.DescriptorProto{Name: proto.String("InnerZz")})
+		default:
+			e.EnumType = append(e.EnumType, &descriptorpb.EnumDescriptorProto{Name: proto.String("InnerEzz"), Value: []*descriptorpb.EnumValueDescriptorProto{{Name: proto.String("INNER_EZZ_ZERO"), Number: proto.Int32(0)}}})
+		}
+		return true
+	}),
 	{"group-in-proto3", false, func(r *core.Rand, p *descriptorpb.FileDescriptorProto) bool {
 		if !isP3(p) || len(p.MessageType) == 0 || p.MessageType[0].GetOptions().GetMapEntry() || maxNum(p.MessageType[0]) > 400000000 {
 			return false
